@@ -222,3 +222,78 @@ class LRCoverage:
 
     def restore(self):
         self.parser.action = self.orig
+
+
+def module_codes(*modules):
+    """every code object defined in the given modules (functions, methods, nested functions, lambdas)"""
+    import types
+    out = set()
+
+    def walk(code):
+        if code in out:
+            return
+        out.add(code)
+        for c in code.co_consts:
+            if isinstance(c, types.CodeType):
+                walk(c)
+    for m in modules:
+        fn = getattr(m, '__file__', None)
+        stack = list(vars(m).values())
+        seen = set()
+        while stack:
+            v = stack.pop()
+            if id(v) in seen:
+                continue
+            seen.add(id(v))
+            f = getattr(v, '__func__', v)
+            if isinstance(v, property):
+                stack.extend(x for x in (v.fget, v.fset, v.fdel) if x is not None)
+                continue
+            code = getattr(f, '__code__', None)
+            if isinstance(code, types.CodeType):
+                if code.co_filename == fn:
+                    walk(code)
+                w = getattr(f, '__wrapped__', None)
+                if w is not None:
+                    stack.append(w)
+            elif isinstance(v, type) and getattr(v, '__module__', None) == m.__name__:
+                stack.extend(vars(v).values())
+    return out
+
+
+class LinePoints:
+    """statement-start scheduling points (sys.monitoring LINE events) inside chosen code objects: every
+    line executed there calls `baton.point('line')` while a baton is installed, so a scheduler can
+    interleave threads between any two statements of that code - including statements that a change
+    to the code under observation adds."""
+    TOOL = 3
+
+    def __init__(self, codes):
+        self.codes = set(codes)
+        self.baton = None
+        self.count = 0
+        self.active = False
+
+    def start(self):
+        mon = sys.monitoring
+        mon.use_tool_id(self.TOOL, 'vmon-linepoints')
+        mon.register_callback(self.TOOL, mon.events.LINE, self._cb)
+        for c in self.codes:
+            mon.set_local_events(self.TOOL, c, mon.events.LINE)
+        self.active = True
+        return self
+
+    def _cb(self, code, line):
+        b = self.baton
+        if b is not None:
+            self.count += 1
+            b.point('line')
+
+    def stop(self):
+        if self.active:
+            mon = sys.monitoring
+            for c in self.codes:
+                mon.set_local_events(self.TOOL, c, 0)
+            mon.register_callback(self.TOOL, mon.events.LINE, None)
+            mon.free_tool_id(self.TOOL)
+            self.active = False
